@@ -326,12 +326,28 @@ pub fn run() -> Report {
             }
         }
     }
+    // alignment: a segwit transaction with witness data and a legacy one, shifted byte by byte (220 positions) across the
+    // 32 KiB mark of their block by the length of a filler script in front of them - every field straddles a buffer refill once
+    for shift in 0..220usize {
+        let mut filler = TxP::base();
+        filler.spk_lens = vec![32_768 - 300 + shift];
+        let mut sw = TxP::base();
+        sw.segwit = true;
+        sw.sig_lens = vec![3, 0];
+        sw.spk_lens = vec![25, 4];
+        sw.wit = vec![vec![2, 33], vec![]];
+        cases.push(Case { coin: if shift % 2 == 0 { "bitcoin" } else { "litecoin" }, verify: shift % 3 == 0, txs: vec![filler, sw, TxP::base()], hdr: None, n_blocks: 3, label: format!("alignment shift {}", shift) });
+    }
+    // a blocks directory like a real one: hundreds of blk files, of which the range touches one; descriptor limit 48
+    for verify in [false, true] {
+        cases.push(Case { coin: "bitcoin", verify, txs: vec![TxP::base()], hdr: None, n_blocks: 3, label: "300-other-blk-files".into() });
+    }
     for coin in ["bitcoin", "litecoin", "dogecoin"] {
         for verify in [false, true] {
             cases.push(Case { coin, verify, txs: vec![], hdr: None, n_blocks: 4, label: "ground-patterns".into() });
         }
     }
-    rep.rule = "product of the core tx-shape alphabet (segwit x n_in x n_out x |scriptSig| x |scriptPubKey| x witness-stack shape) as 2nd tx of the middle block, ordered shape pairs in one block, one-dimension CompactSize boundary sweeps (0xfc,0xfd,0xfe,0xffff,0x10000) for 7 count/length dimensions, u32/u64 field value sweeps; counts and lengths stored in wider CompactSize forms than needed (3 widths x {all, input count, output count, scriptSig length, scriptPubKey length} x legacy/segwit); a chain of ground byte patterns (txids / block hashes beginning or ending with 00, 0000, ff, the bytes of ; \" , and line feed, previous-output hashes of all 00 / ff, values 0, 1, equal, 2^63, 2^64-1, top-bit-set sequence numbers and block time); x coins x --verify; non-trivial = distinct case whose run wrote at least 2 block rows".into();
+    rep.rule = "product of the core tx-shape alphabet (segwit x n_in x n_out x |scriptSig| x |scriptPubKey| x witness-stack shape) as 2nd tx of the middle block, ordered shape pairs in one block, one-dimension CompactSize boundary sweeps (0xfc,0xfd,0xfe,0xffff,0x10000) for 7 count/length dimensions, u32/u64 field value sweeps; counts and lengths stored in wider CompactSize forms than needed (3 widths x {all, input count, output count, scriptSig length, scriptPubKey length} x legacy/segwit); two transactions shifted byte by byte (220 positions) across the 32 KiB mark of their block; a chain of ground byte patterns (txids / block hashes beginning or ending with 00, 0000, ff, the bytes of ; \" , and line feed, previous-output hashes of all 00 / ff, values 0, 1, equal, 2^63, 2^64-1, top-bit-set sequence numbers and block time); x coins x --verify; non-trivial = distinct case whose run wrote at least 2 block rows".into();
     rep.bound = json!({"cases": cases.len(), "product_coins": prod_coins, "blocks": "2..4", "max_count": "0x10000", "max_item_bytes": 2621440});
     rep.not_covered = vec!["counts >= 2^32 (9-byte CompactSize)".into(), "non-canonical CompactSize encodings (consensus-invalid, excluded by design)".into(), "tx/block versions >= 2^31".into()];
     let root = refmodel::world::scratch_root();
@@ -353,6 +369,18 @@ pub fn run() -> Report {
                 });
             }
             let mut spec = RunSpec::new(c.coin, "csvdump").verify(c.verify).range(start, None);
+            if c.label == "300-other-blk-files" {
+                // well-formed blk files (a block of another chain each) that no index record names
+                let other = crate::c03::uniform_block(7, [0x31; 32]).ser();
+                for n in 100..400u64 {
+                    let magic = cn.magic;
+                    let f = world.file(n);
+                    f.append(&magic.to_le_bytes());
+                    f.append(&(other.len() as u32).to_le_bytes());
+                    f.append(&other);
+                }
+                spec.rlimit_nofile = 48;
+            }
             // options that have nothing to do with the content of the dump: every third case at another verbosity
             spec.verbosity = [0u8, 0, 3][i % 3];
             if let Err(m) = wk.materialise(&world) {
